@@ -1,5 +1,6 @@
 import Drx.Vwsc
 import Drx.VwscSpec
+import Drx.Score
 import Drx.Drv.Util
 namespace Drx.Drv.Score
 open Drx Drx.Drv Drx.Vwsc Drx.Vwsc.Spec
@@ -37,6 +38,50 @@ def parseWrapper (s : String) : Option Wrapper :=
 def stepsJ (r : Steps × Nat) : J :=
   .obj [("records", .nat r.1.records), ("deltas", .nat r.1.deltas), ("copied", .nat r.1.copied), ("frames", .nat r.1.frames),
         ("alloc", .nat r.2)]
+
+/-! ### frame tables for C09 (text form of harness/c09.py)
+
+  frames separated by `;` (`-` = no frames); frame = `main|palette|cells`;
+  main = `-` | `fps,s1,s2,script` (24-byte style) | `fps,s1,s2,script,T<hex of the transition id>,chunk,duration` (20-byte style);
+  palette = `-` | palette_id; cells = `-` (no channels) | cells separated by `/`, each `_` (empty) or
+  `castId,backgroundColor,foregroundColor,width,height,ink_type,spriteType,x,y,editable,moveable,trails` -/
+
+def parseBool (s : String) : Option Bool := if s = "1" then some true else if s = "0" then some false else none
+
+def parseCell (s : String) : Option (Option Sprite) :=
+  if s = "_" then some none else
+  match s.splitOn "," with
+  | [c, bg, fg, w, h, ink, ty, x, y, ed, mv, tr] => do
+    let c ← parseInt c; let bg ← parseInt bg; let fg ← parseInt fg; let w ← parseInt w; let h ← parseInt h
+    let ink ← parseInt ink; let ty ← parseInt ty; let x ← parseInt x; let y ← parseInt y
+    let ed ← parseBool ed; let mv ← parseBool mv; let tr ← parseInt tr
+    some (some ⟨ty, c, fg, bg, ink, none, y, x, h, w, tr, mv, ed⟩)
+  | _ => none
+
+def parseMain (s : String) : Option (Option Main) :=
+  if s = "-" then some none else
+  match s.splitOn "," with
+  | [fps, s1, s2, sc] => do
+    let fps ← parseInt fps; let s1 ← parseInt s1; let s2 ← parseInt s2; let sc ← parseInt sc
+    some (some ⟨fps, s1, s2, sc, .d5 0⟩)
+  | [fps, s1, s2, sc, t, ch, du] => do
+    let fps ← parseInt fps; let s1 ← parseInt s1; let s2 ← parseInt s2; let sc ← parseInt sc
+    let tb ← bytesOfHex ((t.drop 1).toString)
+    let ch ← parseInt ch; let du ← parseInt du
+    some (some ⟨fps, s1, s2, sc, .d4 (tb.map fun b => Char.ofNat b.toNat) ch du⟩)
+  | _ => none
+
+def parseFrameT (s : String) : Option Frame :=
+  match s.splitOn "|" with
+  | [m, p, cs] => do
+    let m ← parseMain m
+    let p ← if p = "-" then some none else (parseInt p).map fun v => some (⟨0, [], v, 0⟩ : Pal)
+    let cs ← if cs = "-" then some [] else (cs.splitOn "/").mapM parseCell
+    some ⟨m, p, cs⟩
+  | _ => none
+
+def parseFrames (s : String) : Option (List Frame) :=
+  if s = "-" then some [] else (s.splitOn ";").mapM parseFrameT
 
 /-- commands of the `score` family (see harness/c08.py, harness/c09.py) -/
 def run : List String → Option String
@@ -79,6 +124,10 @@ def run : List String → Option String
     -- right-hand side of C08.decode_is_fold: the fields of each successive channel state
     let lay ← parseLayout lay; let cc ← parseNat cc; let recs ← parseRecs recs
     some (rJ framesJ (expectedFrames lay (zeros (cc * lay.frameSize)) recs))
+  | ["toscore", t] => do
+    -- C09: vwsc_to_score on a frame table
+    let fs ← parseFrames t
+    some (rJ Score.Score.toJ (Score.vwscToScore fs))
   | _ => none
 
 end Drx.Drv.Score
